@@ -53,11 +53,11 @@ TEXT_RULE = {
     'evalshadow': 'systematic shadowing: 7 outer binders (exists/forall/lfp/gfp on a, two-name lists, none) x 6 inner binders on the same name x 8 layouts (inner scope closed by a bracket, a list comma or an if-branch, with uses of the name before, after and outside; triple nesting; binders on absent and binder-only names), default order and an API ordering',
     'sym': 'the NamedSymbol contract the model rests on, all 2304 pairs over 12 ids (0, 1, 2, 7, ids that coincide with 3 or 7 after truncation to 8 / 16 / 32 bits, 2^32, 2^63+2, 2^64-2, 2^64-1) x names {a, b, empty, non-ASCII}: == and cmp / partial_cmp decided by the id alone, equal symbols hash alike (std hasher and the FxHash of a node), nodes over equal symbols are equal, into usize is the id, Display is the name',
     'evalx': 'two separately parsed formulas (two environments) combined by and / or / eq / xor / implies / ite of either environment: 12 fixed pairs and seeded random pairs - the same structure under two spellings of the same ids (p,q,x / req,ack,busy / x,p,q) or unrelated formulas over overlapping ids; seven result diagrams compared',
-    'evalid': 'API orderings with arbitrary ids: 8 formula templates x 6 id layouts with one id SOLVED so that the two children of one node are different diagrams with the same FxHash (the words fed to the hasher are recorded and the FxHasher replayed; kept only when the real get_hash confirms the collision; about 30 orderings, each also inside a conjunction and under a negation), plus seeded random formulas over 6 names under random listings with ids near 0, near usize::MAX, powers of two and random 64-bit values; the evaluated diagram and its conversion to BDD<usize> are compared in rank space with the model under the order-isomorphic small ids, and BY NAME with the default-order answer',
+    'evalid': 'API orderings with arbitrary ids: 8 formula templates x 6 id layouts with one id SOLVED so that the two children of one node are different diagrams with the same FxHash (the words fed to the hasher are recorded and the FxHasher replayed; kept only when the replica agrees with the real get_hash; about 30 orderings, each also inside a conjunction and under a negation), 6 pairs of unrelated diagrams (false / a, true / -a, p / -q, p & c / q | d, ...) made to collide by solving one id forwards and backwards through the hasher, used in 3-8 formulas each incl. fixed points whose iterates then collide with their start value and counting lists whose operands collide (about 24 orderings), plus seeded random formulas over 6 names under random listings with ids near 0, near usize::MAX, powers of two and random 64-bit values; the evaluated diagram and its conversion to BDD<usize> are compared in rank space with the model under the order-isomorphic small ids, and BY NAME with the default-order answer',
     'evallong': 'text handling beyond short inputs, tokenized and evaluated: 4095..70000 blanks / newlines / comment characters before, inside and after a formula; identifiers of 255..5000 characters; CRLF, lone CR, byte order mark, tab, form feed, NBSP, U+2028, zero-width space, combining accents, NUL; open, empty and adjacent comments; counting constants with leading zeros, signs, separators, 2^64-1 and 2^64, non-ASCII digits; nesting depth 10..200 (thorough 400) of brackets, negations, binders, lists, if-then-else',
     'evalcoll': 'pairs of distinct 16-character identifiers with the SAME 64-bit FxHash (first halves random, second halves solved byte by byte, kept only when the real FxHasher agrees; 6 pairs, thorough 40) in 9 formula shapes (both orders, bound/free, counting, xor, lfp, ite) and in API orderings: tokens, vars, free_vars, diagram',
     'evalc': 'counting grid: 5 comparisons x 10 constants (0..4, 2^63-2 .. 2^63, 2^64-2, 2^64-1) x 6 operand lists, 5x5 list-vs-list grid; plus seeded random formulas containing a counting comparison',
-    'evalfp': '23 hand-picked fixed-point formulas (identity, constants, divergent negation, chains through quantifiers, nested/mixed lfp-gfp, shadowing by quantifier and by inner fixed point, counting, ite); plus seeded random formulas containing lfp/gfp over 3 names, 3/4 monotone by construction, 1/4 arbitrary',
+    'evalfp': '29 formulas with the bound name in every position of every construct (both lists of list-against-list comparisons, each operand position, both if-branches, under double negation, inside an inner fixed point; each monotone), default order and an API ordering; 23 hand-picked fixed-point formulas (identity, constants, divergent negation, chains through quantifiers, nested/mixed lfp-gfp, shadowing by quantifier and by inner fixed point, counting, ite); plus seeded random formulas containing lfp/gfp over 3 names, 3/4 monotone by construction, 1/4 arbitrary',
 }
 
 
@@ -89,15 +89,15 @@ def cli(parts, exhaustive=False):
 
 
 GEN_RULE = {
-    'queens': 'n_queens_gen -n 0..12 (thorough ..40): output parsed with the real rsbdd parser, the &-chain compared as a multiset of constraints with operand multisets against queens_form n; n = 1..4 solved end to end by the real library against brute force over fsem of the model formula; n = 255, 256, 300 (the u16 boundary) by constraint count and largest index',
+    'queens': 'n_queens_gen -n 0..12 (thorough ..40): output parsed with the real rsbdd parser, the &-chain compared as a multiset of constraints with operand multisets against queens_form n; n = 1..4 solved end to end by the real library against brute force over fsem of the model formula; n = 255, 256, 300, 316, 317, 400, 1000 (thorough also 332, 999, 1001, 1500: the u16 boundary of n and the decimal-width boundaries of the cell number) by constraint count, largest index, number of distinct cell names (n*n) and spelling of every name (v_ + decimal without leading zeros); n = 3163, 10000, 46340, 46341, 50000, 65535 (cell numbers passing 2^31 and 2^32) by the first 6 MB of the stream: well-formed constraint lines over cells below n*n, no panic',
     'sudoku': 'sudoku_gen -r 1 on 17 one-cell texts (digits 0/1/2/9, blanks, quote, non-ASCII digit, ASCII and non-ASCII white space), -r 2 on all single-given and a stride of double-given 4x4 puzzles, seeded random texts for r = 1, 2, 3 (short and over-long input, every blank symbol, digits above r^2, quotes, brackets, white space incl. U+00A0): hints and the three exactly-one families as multisets against sudoku_form r (hints_of_text ..)',
-    'clique': 'max_clique_gen on all directed graphs over <=3 vertices x {-u} x {-a}, all undirected graphs over <=4 vertices x {-a}, the same over vertex names that start with the copy prefix (v_a, v_, v__a), seeded random graphs <=7 vertices: constraint multiset, forall list, premise and both counting lists against form_all / form_max over the complement list comp_dir / comp_undir in the iteration order read off the real output; graphs <=4 vertices additionally solved end to end by the real library against brute force over fsem',
+    'clique': 'max_clique_gen on all directed graphs over <=3 vertices x {-u} x {-a}, all undirected graphs over <=4 vertices x {-a}, the same over vertex names that start with the copy prefix (v_a, v_, v__a), seeded random graphs <=7 vertices: constraint multiset, forall list, premise and both counting lists against form_all / form_max over the complement list comp_dir / comp_undir in the iteration order read off the real output; graphs <=4 vertices additionally solved end to end by the real library against brute force over fsem, also through INPUT / OUTPUT files where OUTPUT exists and is longer and the INPUT path contains blanks, a double quote and formula syntax; a fourth of the random graphs and two exhaustive passes use vertex names that collide pairwise under FxHash',
     'graph': 'random_graph_gen on the (V, E) grid V<=6, E<=max+2 x {-u} x {--dot} x 6 runs (thorough 40) and --complete: each real answer (or refusal) judged by the extracted valid_output / feasible; --convert on all edge lists over 3 vertices and random ones x {-u} against read_graph; --colors k=1..3 against the colour graph aug as a set of unordered pairs',
 }
 
 
 def gen(parts):
-    ops = {'queens': ['queens', 'queensbig', 'queensmodels', 'queenssols'], 'sudoku': ['sudoku'], 'clique': ['clique', 'cliquemodels'],
+    ops = {'queens': ['queens', 'queensbig', 'queenshuge', 'queensmodels', 'queenssols'], 'sudoku': ['sudoku'], 'clique': ['clique', 'cliquemodels'],
            'graph': ['graphcheck', 'convert', 'colors']}
     return dict(suite='gen', parts=parts, profile='release', bins='debug', exhaustive=True,
                 corpus_ops=[o for p in parts for o in ops[p]],
@@ -120,7 +120,7 @@ PROPS = {
     'C11': dict(suites=[cli(['order', 'names', 'coll', 'random']), text(['evalord', 'evalid', 'sym'])]),
     'C12': dict(suites=[cli(['robustlib', 'robustbin', 'grid', 'size']), text(['evallong'], exhaustive=False), dbg(cli(['robustlib'])), dbg(text(['evallong', 'evalc']))]),
     'C19': dict(suites=[dict(suite='set', parts=[], profile='release', exhaustive=True,
-                             rule='complete BFS over all 256 reachable pairs of reference states of two 2-bit sets sharing an environment x all 32 next operations (insert, contains per element; union, intersect, complement for all four operand pairs incl. the same set twice; empty; universe), each followed by all 8 membership queries twice; plus seeded random histories of <=25 operations over 1..5 bits ending in a full membership sweep; answers and both final diagrams are compared')]),
+                             rule='setw: sets of 7..64 bits (around 8, 16, 32, 56, 64) with elements that agree on their low 8 / 16 / 32 / 56 bits or differ in the top bit only, inserts, all queries, one binary operation, all queries again, against the machine over binary elements (set_runN; C19_histories_N); set2: two sets of DIFFERENT widths ((3,5), (5,3), (2,16), (1,64), (6,33), ...) in one environment, each used on its own, either one speaking first; complete BFS over all 256 reachable pairs of reference states of two 2-bit sets sharing an environment x all 32 next operations (insert, contains per element; union, intersect, complement for all four operand pairs incl. the same set twice; empty; universe), each followed by all 8 membership queries twice; plus seeded random histories of <=25 operations over 1..5 bits ending in a full membership sweep; answers and both final diagrams are compared')]),
     'C13': dict(lint='c13', suites=[dict(suite='hist', parts=[], profile='release', exhaustive=True,
                              rule='hist: all 1884 operation sequences of length <=3 over a 12-operation alphabet acting on the two latest handles (var, not, and, or, xor, exists, model, retain, mk_choice, clean, counting) in one environment, plus seeded random histories (100 x 100 operations; thorough 2000 x 300) over all public operations incl. fp, with operands drawn from recent and from old handles; after EVERY step: the step re-run in a fresh environment gives the identical result, every earlier handle re-serialises to its recorded text, every node reachable from every handle is pointer-identical to the unique table entry for its structure, both leaves present, every key equals its value. heap: random sequences of direct mk_choice / mk_const calls on earlier results: pointer-equality pattern and table size against the Heap model. histf: 2-6 formula texts evaluated one after the other in ONE environment through ParsedFormula::new_with_env, the same structure recurring under four spellings of the same ids: each result equals the fresh-environment evaluation and the model value, old results keep their structure, equal results are one pointer, table invariants after every step. All table sweeps also require one entry per (id, child addresses)'),
                         bdd(['mixed'], exhaustive=False), text(['sym'], exhaustive=False)]),
@@ -134,8 +134,8 @@ PROPS = {
     'C18': dict(suites=[gen(['graph'])]),
     'C03': dict(suites=[bdd(['conn', 'wide']), text(['sym', 'evalx', 'evalid'], exhaustive=False)]),
     'C04': dict(suites=[bdd(['quant', 'wide']), text(['evalq', 'evalfp', 'sym'])]),
-    'C05': dict(suites=[bdd(['count', 'wide']), text(['evalc', 'sym']), dbg(bdd(['count'])), dbg(text(['evalc']))]),
-    'C06': dict(suites=[bdd(['fp']), text(['evalfp', 'evalshadow', 'sym'], exhaustive=False)]),
+    'C05': dict(suites=[bdd(['count', 'wide']), text(['evalc', 'sym', 'evalid', 'evalfp']), dbg(bdd(['count'])), dbg(text(['evalc']))]),
+    'C06': dict(suites=[bdd(['fp']), text(['evalfp', 'evalshadow', 'sym', 'evalid'], exhaustive=False)]),
     'C07': dict(suites=[bdd(['model', 'wide']), cli(['grid', 'models']), text(['sym'], exhaustive=False)]),
     'C20': dict(suites=[bdd(['retain', 'wide']), cli(['grid', 'env']), text(['sym'], exhaustive=False)]),
 }
